@@ -59,3 +59,93 @@ contract(LG + 'handlers.FileHandlerFactory.__init__', params={'section': 'Ref[Lo
                   Clause('self.section == section')],
          raises=[Raise('ValueError', when=REFUSED, carries='C20',
                        label='rotation-options-refused-for-std-streams-rotation-needs-old-files')])
+
+# ---- the registry of reopenable file handlers (weak references) --------------------------------------------------------
+from pyvc.api import shared_list
+model('LogHandler', fields={}, external=True)
+model('WeakRef', fields={'target': 'Opt[Ref[LogHandler]]'}, external=True)
+shared_list('weakrefs', 'Ref[WeakRef]')
+global_const(LG + 'loghandler._reopenable_handlers', 'Ref[list:weakrefs]', alias='LOG_REGISTRY')
+MODELS['Ghost'].fields['reopened'] = 'Seq[Ref[LogHandler]]'
+MODELS['Ghost'].fields['closed'] = 'Seq[Ref[LogHandler]]'
+assumed('WeakRef.__call__', self_type='WeakRef', params={}, returns='Opt[Ref[LogHandler]]', pure=True,
+        ensures=[Clause('result == self.target')], notes='a weak reference: its referent while alive, else None')
+assumed('LogHandler.reopen', self_type='LogHandler', params={}, modifies=['GHOST.reopened'],
+        ensures=[Clause('GHOST.reopened == old(GHOST.reopened) + [self]')],
+        notes='reopen() of a file handler (stream effects not modelled); ghost log of the handlers acted on')
+assumed('LogHandler.close', self_type='LogHandler', params={}, modifies=['GHOST.closed', 'LOG_REGISTRY.items'],
+        ensures=[Clause('GHOST.closed == old(GHOST.closed) + [self]'),
+                 Clause('len(LOG_REGISTRY.items) <= len(old(LOG_REGISTRY.items))')],
+        notes='close() of a file handler: closes the stream and removes its own weak reference from the registry')
+contract(LG + 'loghandler._remove_from_reopenable', params={'wr': 'Ref[WeakRef]'}, modifies=['LOG_REGISTRY.items'],
+         ensures=[Clause('implies(wr in old(LOG_REGISTRY.items), len(LOG_REGISTRY.items) == len(old(LOG_REGISTRY.items)) - 1)',
+                         carries='C20', label='reference-removed-once'),
+                  Clause('implies(wr not in old(LOG_REGISTRY.items), LOG_REGISTRY.items == old(LOG_REGISTRY.items))',
+                         carries='C20', label='unknown-reference-ignored')])
+contract(LG + 'loghandler.reopenFiles', modifies=['GHOST.reopened', 'LOG_REGISTRY.items'],
+         ensures=[Clause('GHOST.reopened == old(GHOST.reopened) + live_handlers(old(LOG_REGISTRY.items), 0)', carries='C20',
+                         label='exactly-the-handlers-still-alive-are-reopened-once-each-in-order')],
+         hints=['live_handlers(old(LOG_REGISTRY.items), _i0)'],
+         loops=[Loop(invariant=[Clause('GHOST.reopened + live_handlers(old(LOG_REGISTRY.items), _i0) == '
+                                       'old(GHOST.reopened) + live_handlers(old(LOG_REGISTRY.items), 0)',
+                                       label='reopened-so-far-plus-remaining')],
+                     hints=['live_handlers(old(LOG_REGISTRY.items), _i0)'],
+                     locals={'wr': 'Ref[WeakRef]', 'h': 'Opt[Ref[LogHandler]]'},
+                     modifies=['GHOST.reopened', 'LOG_REGISTRY.items'])])
+contract(LG + 'loghandler.closeFiles', modifies=['GHOST.closed', 'LOG_REGISTRY.items'],
+         ensures=[Clause('len(LOG_REGISTRY.items) == 0', carries='C20', label='registry-emptied')],
+         loops=[Loop(invariant=[], decreases='len(LOG_REGISTRY.items)',
+                     locals={'wr': 'Ref[WeakRef]', 'h': 'Opt[Ref[LogHandler]]'},
+                     modifies=['GHOST.closed', 'LOG_REGISTRY.items'])])
+
+# ---- logger factories: the configured logging setup (logging package ASSUMED) ------------------------------------------
+model('ext:logging.Logger', fields={'level': 'int', 'handlers': 'Seq[Opaque[PyVal]]', 'propagate': 'bool'}, external=True)
+prim('logger_of', 'Opt[str] -> Ref[ext:logging.Logger]')
+assumed('logging.getLogger', params={'name': ('Opt[str]', 'None')}, returns='Ref[ext:logging.Logger]', pure=True,
+        ensures=[Clause('result == logger_of(name)')],
+        notes='logging.getLogger(name): THE logger of that name (the root logger for None)')
+assumed('ext:logging.Logger.setLevel', self_type='ext:logging.Logger', params={'level': 'int'}, modifies=['self.level'],
+        ensures=[Clause('self.level == level')])
+assumed('ext:logging.Logger.addHandler', self_type='ext:logging.Logger', params={'hdlr': 'Opaque[PyVal]'},
+        modifies=['self.handlers'], ensures=[Clause('self.handlers == add_handler(old(self.handlers), hdlr)')],
+        notes='logging.Logger.addHandler: appended unless already present')
+model('LoggerSection', fields={'level': 'int', 'handlers': 'Seq[Ref[%shandlers.HandlerFactory]]' % LG, 'name': 'Opt[str]',
+                               'propagate': 'bool'}, external=True)
+model(LG + 'logger.LoggerFactoryBase', fields={'level': 'int', 'handler_factories': 'Seq[Ref[%shandlers.HandlerFactory]]' % LG,
+                                               'name': 'Opt[str]'}, late_fields=('name',))
+model(LG + 'logger.LoggerFactory', fields={'propagate': 'bool'})
+contract(LG + 'logger.LoggerFactoryBase.__init__', params={'section': 'Ref[LoggerSection]'},
+         ensures=[Clause('self.level == section.level and self.handler_factories == section.handlers and '
+                         'self.instance == FACTORY_MARKER', carries='C20', label='configured-level-and-handler-factories')])
+contract(LG + 'logger.LoggerFactory.__init__', params={'section': 'Ref[LoggerSection]'},
+         ensures=[Clause('self.level == section.level and self.handler_factories == section.handlers and '
+                         'self.name == section.name and self.propagate == section.propagate and '
+                         'self.instance == FACTORY_MARKER', carries='C20', label='configured-name-level-propagate')])
+model(LG + 'loghandler.NullHandler', fields={})
+FAC_INST = '*%sfactory.Factory.instance' % LG
+ALL_CALLED = ('forall(lambda j: implies(0 <= j and j < len(self.handler_factories), '
+              'self.handler_factories[j].instance != FACTORY_MARKER))')
+contract(LG + 'logger.LoggerFactoryBase.create', returns='Ref[ext:logging.Logger]',
+         modifies=['GHOST.creates', FAC_INST, '*ext:logging.Logger.level', '*ext:logging.Logger.handlers'],
+         ensures=[Clause('result == logger_of(self.name)', carries='C20', label='the-logger-of-the-configured-name'),
+                  Clause('result.level == self.level', carries='C20', label='configured-level'),
+                  Clause(ALL_CALLED, carries='C20', label='every-handler-factory-has-been-called'),
+                  Clause('len(result.handlers) <= len(old(logger_of(self.name).handlers)) + max(1, len(self.handler_factories))',
+                         carries='C20', label='at-most-one-handler-added-per-handler-section (one NullHandler when there is none)'),
+                  Clause('len(result.handlers) >= len(old(logger_of(self.name).handlers))', label='none-removed')],
+         raises=[Raise('Exception+', label='a-handler-factory-failed')],
+         loops=[Loop(invariant=[Clause('logger == logger_of(self.name) and logger.level == self.level'),
+                                Clause('forall(lambda j: implies(0 <= j and j < _i0, '
+                                       'self.handler_factories[j].instance != FACTORY_MARKER))', label='called-so-far'),
+                                Clause('len(logger.handlers) <= len(old(logger_of(self.name).handlers)) + _i0 and '
+                                       'len(logger.handlers) >= len(old(logger_of(self.name).handlers))')],
+                     locals={'handler_factory': 'Ref[%shandlers.HandlerFactory]' % LG, 'handler': 'Opaque[PyVal]',
+                             'logger': 'Ref[ext:logging.Logger]'},
+                     modifies=['GHOST.creates', FAC_INST, '*ext:logging.Logger.handlers'])])
+contract(LG + 'logger.LoggerFactory.create', returns='Ref[ext:logging.Logger]',
+         modifies=['GHOST.creates', FAC_INST, '*ext:logging.Logger.level', '*ext:logging.Logger.handlers',
+                   '*ext:logging.Logger.propagate'],
+         ensures=[Clause('result == logger_of(self.name) and result.level == self.level', carries='C20',
+                         label='the-named-logger-with-the-configured-level'),
+                  Clause('result.propagate == self.propagate', carries='C20', label='configured-propagate-flag')],
+         raises=[Raise('Exception+', label='a-handler-factory-failed')])
